@@ -34,6 +34,10 @@ THEOREMS = [
     'C16.Mem.run_frame', 'C16.Mem.call_scribble_call', 'C16.Mem.two_results_distinct',
     # arrays of planes: accepted iff every row is a plane on its own (zero row / non-integer row rejects the array)
     'C16.planeArr_ok_iff', 'C16.planeArr_rows', 'C16.planeRow_zero',
+    # counts and thresholds: a long array evaluated in blocks = evaluated whole (any cut), the in-plane vectors are exact
+    # (zone law, no truncation loss), the four-index form of an unsigned plane needs a negative index
+    'C16.planeArr_append', 'C16.guardAll_append', 'C16.plane4to3Arr_append', 'C16.vector4to3Arr_append',
+    'C16.inplane_zone', 'C16.plane3to4_third_negative',
     # centering tables (generated from miller.py)
     'C16.centering_inverse', 'C16.centering_det',
     # reduce_indices / all_indices
@@ -192,7 +196,18 @@ RULE = ('CELLS: every crystal family from its Box constructor (generic parameter
         '2^62) indices through the 3<->4 conversions, plane indices to 40, arrays of planes with one zero or non-integer row '
         '(fractional parts cancelling within a row or across rows), limiting rhombohedral angles (60, 109.47, 70.53, 30, 119, '
         '89, 91), hexagonal cells with c = a within tolerance and ideal c/a, all_indices(0), strings with commas / '
-        'typographic minus / swapped or unmatched brackets (model and code must both refuse); distinct = distinct canonical '
+        'typographic minus / swapped or unmatched brackets (model and code must both refuse). COUNTS AND THRESHOLDS: integer '
+        'index sets held as uint8 / uint16 / uint32 / uint64 / int8 / int16 / int32 arrays (small values and values at the ends '
+        'of the dtype range; uint64 to 2^52, plane indices to 10^4) through every function, in the memory-layout cases and in '
+        'the memory sessions; ONE call with 1000 ... 131073 index sets (2^10..2^15 -1/+0/+1, 1000, 1001, 2001, 5001, 10001, two '
+        'of 50001 / 65535 / 65536 / 65537 / 70001 / 100001 / 131073; entries to 9 / 40 / 300 / 3000 / 10^6; int64, int32, '
+        'float64) compared with the same rows given singly and in blocks of 509, a single bad row anywhere refuses the array; '
+        'plane normals of ~1000-2000, ~4100-8200 (both entry points, also against the model planearr) and 65536-70001 planes '
+        'per call on non-diagonal cells; plane indices beyond the exhaustive bound: float-division trap values (k with '
+        'k*(1/k) != 1: 49, 98, 103, 107, ... below 1000) and their multiples next to small indices in every zero pattern, '
+        'random indices to 10^4; arrays with no index set in them; all_indices at 8, 10, 12, 16, 20, the default, reduce as '
+        '1 / numpy.True_ / 0; numerals of 8-15 digits; family-shaped parameter sets with coincidences in the slots no '
+        'predicate compares (b == c, beta == gamma: correspondence only, outside the quantifier); distinct = distinct canonical '
         'driver line; non-trivial = not the zero index vector / not an error case')
 ASSUMPTIONS = [
     'the final division by numpy.linalg.norm is a positive scalar (the model returns the unnormalised exact normal; '
@@ -900,16 +915,51 @@ def correspond(ctx):
             return x + rng.choice([0.0, 0.5, 0.98, 1.02, 2.0, 40.0, -0.5, -0.98, -1.02, -2.0, -40.0]) * tol
         a = cm.dyadic(rng, 2, 9, 4)
         b = rng.choice([near(a), near(a), cm.dyadic(rng, 2, 9, 4)])
-        c = rng.choice([near(a), near(a), cm.dyadic(rng, 2, 9, 4)])
+        c = rng.choice([near(a), near(a), cm.dyadic(rng, 2, 9, 4), near(b)])      # near(b): b == c, a slot no predicate compares
         al = rng.choice([near(90.0), near(90.0), cm.dyadic(rng, 50, 130, 2)])
         be = rng.choice([near(90.0), near(al), cm.dyadic(rng, 50, 130, 2)])
-        ga = rng.choice([near(90.0), near(120.0), near(al), cm.dyadic(rng, 50, 130, 2)])
+        ga = rng.choice([near(90.0), near(120.0), near(al), cm.dyadic(rng, 50, 130, 2), near(be)])
         duck = SimpleNamespace(a=a, b=b, c=c, alpha=al, beta=be, gamma=ga)
         par = [a, b, c, al, be, ga]
         impl, e = _call(lambda: (crystalsystem.identifyfamily(duck, rtol=rtol, atol=atol),
                                  [getattr(crystalsystem, p)(duck, rtol=rtol, atol=atol) for p in preds_box]))
         B.add('family:boundary', _fam_line(par, rtol, atol), impl, e, _cmp_fam,
               {'params': par, 'rtol': rtol, 'atol': atol})
+    # coincidences in the slots the predicates do NOT compare (b == c, beta == gamma) and in the ones they do, on cells
+    # shaped like each of the low-symmetry families: outside the property's quantifier ("generic, non-coincident
+    # parameters"), so no clause is claimed; the model (the comparisons as coded) must answer as the code does, through the
+    # stand-alone functions on parameter sets and through the methods of a real Box with these parameters
+    for it in range(ctx.n(240, 2400)):
+        rtol, atol = rng.choice([(1e-5, 1e-8), (1e-5, 1e-8), (2.0 ** -10, 2.0 ** -20), (2.0 ** -6, 2.0 ** -3)])
+
+        def near(x):
+            tol = atol + rtol * abs(x)
+            return x + rng.choice([0.0, 0.0, 0.5, -0.5, 0.98, 1.02, -0.98, -1.02, 40.0]) * tol
+        a, b0, c0 = (cm.dyadic(rng, 2, 9, 4) for _ in range(3))
+        b, c = rng.choice([(b0, near(b0)), (b0, near(b0)), (b0, near(a)), (near(a), c0), (near(a), near(a)), (b0, c0)])
+        shape = it % 3
+        if shape == 0:
+            al, be, ga = near(90.0), near(90.0), near(90.0)
+        elif shape == 1:
+            al, be, ga = near(90.0), cm.dyadic(rng, 95, 125, 2), near(90.0)
+        else:
+            al = cm.dyadic(rng, 65, 85, 2)
+            be0, ga0 = cm.dyadic(rng, 95, 115, 2), cm.dyadic(rng, 95, 115, 2)
+            be, ga = rng.choice([(be0, near(be0)), (be0, near(be0)), (near(al), ga0), (be0, near(al)), (be0, ga0)])
+        par = [a, b, c, al, be, ga]
+        if it % 2 == 0:
+            duck = SimpleNamespace(a=a, b=b, c=c, alpha=al, beta=be, gamma=ga)
+            impl, e = _call(lambda: (crystalsystem.identifyfamily(duck, rtol=rtol, atol=atol),
+                                     [getattr(crystalsystem, p)(duck, rtol=rtol, atol=atol) for p in preds_box]))
+        else:
+            box, e0 = _call(lambda: am.Box(a=a, b=b, c=c, alpha=al, beta=be, gamma=ga))
+            if e0 is not None:
+                continue
+            par = _params(box)
+            impl, e = _call(lambda: (box.identifyfamily(rtol=rtol, atol=atol),
+                                     [getattr(box, p)(rtol=rtol, atol=atol) for p in preds_box]))
+        B.add('family:coincident-slots', _fam_line(par, rtol, atol), impl, e, _cmp_fam,
+              {'params': par, 'rtol': rtol, 'atol': atol}, nontrivial=False)
     B.run()
 
     # real Box objects (any orientation) near the isclose boundary, non-default tolerances through the METHODS
@@ -921,10 +971,10 @@ def correspond(ctx):
             return x + rng.choice([0.0, 0.5, 0.9, 1.1, 2.0, 40.0, -0.5, -0.9, -1.1, -2.0, -40.0]) * tol
         a = cm.dyadic(rng, 2, 9, 4)
         b = rng.choice([near(a), near(a), cm.dyadic(rng, 2, 9, 4)])
-        c = rng.choice([near(a), near(a), cm.dyadic(rng, 2, 9, 4)])
+        c = rng.choice([near(a), near(a), cm.dyadic(rng, 2, 9, 4), near(b)])      # near(b): b == c, a slot no predicate compares
         al = rng.choice([near(90.0), near(90.0), cm.dyadic(rng, 60, 120, 2)])
         be = rng.choice([near(90.0), near(al), cm.dyadic(rng, 60, 120, 2)])
-        ga = rng.choice([near(90.0), near(120.0), near(60.0), near(al), cm.dyadic(rng, 60, 120, 2)])
+        ga = rng.choice([near(90.0), near(120.0), near(60.0), near(al), cm.dyadic(rng, 60, 120, 2), near(be)])
         ca, cb, cg = (math.cos(math.radians(x)) for x in (al, be, ga))
         if 1 - ca * ca - cb * cb - cg * cg + 2 * ca * cb * cg < 0.05:
             continue
@@ -1074,7 +1124,7 @@ def correspond(ctx):
         Vfr = [[Fraction(float(x)) for x in row] for row in V]
         hx = ctx.driver.ask(_fam_line(_params(box))).split()[2]
         n = rng.choice([4097, 4100, 4500, 4912, 5000])
-        arr = _big_rows(np, rng.getrandbits(32), n, 3, rng.choice(['int64', 'int32']))
+        arr = _big_rows(np, rng.getrandbits(32), n, 3, rng.choice(['int64', 'int32']), rng.choice([9, 40, 300]))
         f = box.plane_crystal_to_cartesian if it % 2 == 0 else (lambda x: miller.plane_crystal_to_cartesian(x, box))
         r, e = _call(f, arr)
         rows = arr.tolist()
@@ -1910,8 +1960,10 @@ def _o_all_indices_flags(ctx, np, miller, m):
     for label, f, flag in forms:
         r, e = _call(f)
         if e is not None or np.asarray(r).shape != ref[flag].shape or not np.array_equal(np.asarray(r), ref[flag]):
-            ctx.violate('all_indices', f'all_indices({m}) called with {label} gives {e or np.asarray(r).shape}, with reduce={flag} it '
-                        f'gives {ref[flag].shape}', {'op': 'all_indices_flags', 'maxindex': m})
+            rows = None if e is not None else np.asarray(r).reshape(-1, 3)[:3].tolist()
+            ctx.violate('all_indices', f'all_indices({m}) called with {label} gives {e or np.asarray(r).shape} (first rows {rows}), '
+                        f'with reduce={flag} it gives {ref[flag].shape} (first rows {ref[flag][:3].tolist()})',
+                        {'op': 'all_indices_flags', 'maxindex': m})
             return
 
 
@@ -1999,9 +2051,9 @@ _DIGITS = '0123456789'
 
 
 def _gen_numeral(rng, allow_plus=True):
-    """a decimal integer numeral as a string: 1..3 digits mostly, sometimes up to 6, no leading zeros,
+    """a decimal integer numeral as a string: 1..3 digits mostly, sometimes up to 6, rarely 8 / 10 / 15, no leading zeros,
     sign '-' / none / (rarely) '+'.  -> (text, class)"""
-    nd = rng.choice([1, 1, 1, 2, 2, 2, 3, 3, 4, 6])
+    nd = rng.choice([1, 1, 1, 2, 2, 2, 3, 3, 4, 6] * 3 + [8, 10, 15])       # up to 15 digits: still exact in a double
     digits = rng.choice('123456789') + ''.join(rng.choice(_DIGITS) for _ in range(nd - 1))
     if nd == 1 and rng.random() < 0.25:
         digits = '0'
@@ -2313,7 +2365,7 @@ _DT = {'int64': 'int64', 'int32': 'int32', 'float64': 'float64', 'uint8': 'uint8
 # 2^52 (the float results, h + k included, are exact up to 2^53), the signed ones leave out the most negative value (its absolute
 # value does not exist in the dtype: numpy's own gcd / abs overflow there)
 NARROW = {'uint8': (0, 255), 'uint16': (0, 65535), 'uint32': (0, 2 ** 32 - 1), 'uint64': (0, 2 ** 52),
-          'int8': (-127, 127), 'int16': (-32767, 32767)}
+          'int8': (-127, 127), 'int16': (-32767, 32767), 'int32': (-(2 ** 31 - 1), 2 ** 31 - 1)}
 UNSIGNED = ('uint8', 'uint16', 'uint32', 'uint64')
 
 
@@ -2591,6 +2643,8 @@ def _trap_triples(rng, n):
         else:
             hi = rng.choice([100, 1000, 10 ** 4])
             t = [sg() * rng.randint(1, hi) for _ in range(3)]
+            if rng.random() < 0.3:
+                t[rng.randrange(3)] = 0
         out.append(tuple(t))
     return out
 
@@ -2747,15 +2801,16 @@ def _dtype_cases(rng, ctx, cells):
     return out
 
 
-BIG_SIZES = [1023, 1024, 1025, 2047, 2048, 2049, 4095, 4096, 4097, 8191, 8192, 8193]
-HUGE_SIZES = [65535, 65536, 65537, 70001]
+BIG_SIZES = [1023, 1024, 1025, 2047, 2048, 2049, 4095, 4096, 4097, 8191, 8192, 8193,
+             1000, 1001, 2001, 5001, 10001, 16383, 16384, 16385, 32767, 32768, 32769]      # 2^k -1/+0/+1 and n = k * block + 1
+HUGE_SIZES = [50001, 65535, 65536, 65537, 70001, 100001, 131073]
 
 
-def _big_rows(np, seed, n, k, dtype):
-    """`n` index sets (k = 3 | 4) drawn from a numpy generator seeded with `seed` (replayable from the three numbers);
-    no zero index vector; four-index sets satisfy the sum guard."""
+def _big_rows(np, seed, n, k, dtype, hi=9):
+    """`n` index sets (k = 3 | 4) with entries in -hi..hi drawn from a numpy generator seeded with `seed` (replayable from
+    these numbers); no zero index vector; four-index sets satisfy the sum guard."""
     g = np.random.default_rng(seed)
-    a = g.integers(-9, 10, size=(n, k))
+    a = g.integers(-hi, hi + 1, size=(n, k))
     if k == 4:
         a[:, 2] = -(a[:, 0] + a[:, 1])
         zero = (a[:, 0] == 0) & (a[:, 1] == 0) & (a[:, 3] == 0)
@@ -2773,8 +2828,9 @@ def _o_big(ctx, np, am, miller, case):
     name, n, k, block = case['fn'], case['n'], case['k'], case.get('block', 509)
     f1, _f0, box = _pure_fn(am, miller, case)
     replay = {'op': 'big', 'case': case}
-    arr = _big_rows(np, case['seed'], n, k, case['dtype'])
-    what = f'{name} on {n} index sets in one call ({case["dtype"]} array of shape {arr.shape}, rows from default_rng({case["seed"]}))'
+    arr = _big_rows(np, case['seed'], n, k, case['dtype'], case.get('hi', 9))
+    what = (f'{name} on {n} index sets in one call ({case["dtype"]} array of shape {arr.shape}, entries up to {case.get("hi", 9)} '
+            f'from default_rng({case["seed"]}))')
     bad = case.get('bad')
     if bad is not None:
         j, kind = bad
@@ -2847,9 +2903,10 @@ def _o_big(ctx, np, am, miller, case):
 
 
 def _big_cases(rng, ctx, cells, broken):
-    """sizes: every function at a few of the sizes around the powers of two 2^10..2^13 and at one of 2^16 -1/+0/+1 / 70001
-    (all of them in the thorough tier); plane normals (one Python call per row inside) at one size just past 4096 and one
-    past 65536 per run, on cells that are NOT diagonal, through both entry points."""
+    """sizes: every vectorised function at 2^10..2^15 -1/+0/+1, at 1000 / 1001 / 2001 / 5001 / 10001 (n = k * block + 1) and at
+    two of 50001 / 2^16 -1/+0/+1 / 70001 / 100001 / 2^17+1 (all of them in the thorough tier); plane normals (one Python call
+    per row inside) at one size just past 1000 / 1024 / 2000 / 2048, one just past 4096 per entry point and one past 65536
+    per run, on cells that are NOT diagonal."""
     out = []
     full = ctx.thorough or broken
     nondiag = [c for c in cells if c[3]['hand'] == 'right' and
@@ -2867,10 +2924,11 @@ def _big_cases(rng, ctx, cells, broken):
     if hexs:
         cheap.append(('vector_crystal_to_cartesian', 4, ex_of(rng.choice(hexs))))
     for name, k, extra in cheap:
-        sizes = (BIG_SIZES + HUGE_SIZES) if full else rng.sample(BIG_SIZES, 3) + [rng.choice(HUGE_SIZES)]
+        sizes = (BIG_SIZES + HUGE_SIZES) if full else BIG_SIZES + rng.sample(HUGE_SIZES, 2)      # vectorised: cheap
         for n in sizes:
             dtype = rng.choice(['int64', 'int64', 'int32', 'float64'] if name != 'reduce_indices' else ['int64', 'int32'])
-            out.append({'fn': name, 'n': n, 'k': k, 'seed': rng.getrandbits(32), 'dtype': dtype, 'extra': extra})
+            out.append({'fn': name, 'n': n, 'k': k, 'seed': rng.getrandbits(32), 'dtype': dtype, 'extra': extra,
+                        'hi': rng.choice([9, 9, 40, 300, 3000, 10 ** 6])})
         if name in ('plane4to3', 'vector4to3'):
             for n in rng.sample(BIG_SIZES, 2) + [rng.choice(HUGE_SIZES)]:
                 j = rng.choice([n - 1, n - 1, 0, n // 2, min(n - 1, 4096), min(n - 1, 1024), rng.randrange(n)])
@@ -2878,10 +2936,11 @@ def _big_cases(rng, ctx, cells, broken):
                             'bad': [j, 'guard']})
     planes = [('plane_crystal_to_cartesian', 3), ('miller.plane_crystal_to_cartesian', 3)]
     plan = []
-    mid = [4097, 4100, 4912, 5000, 8193]
+    mid = [4097, 4100, 4912, 5000, 5001, 8193]
     for name, k in planes:
         plan.append((name, k, rng.choice(nondiag), rng.choice(mid), True))
-    plan.append((rng.choice(planes)[0], 3, rng.choice(nondiag), rng.choice(HUGE_SIZES + [68920]), False))
+    plan.append((rng.choice(planes)[0], 3, rng.choice(nondiag), rng.choice([65536, 65537, 68920, 70001]), False))
+    plan.append((rng.choice(planes)[0], 3, rng.choice(nondiag), rng.choice([1001, 1025, 2001, 2049]), True))
     if hexs:
         plan.append(('plane_crystal_to_cartesian', 4, rng.choice(hexs), rng.choice(mid), True))
     if full:
@@ -2889,7 +2948,7 @@ def _big_cases(rng, ctx, cells, broken):
             plan.append(('plane_crystal_to_cartesian', 3, rng.choice(nondiag), n, True))
     for name, k, c, n, blocks in plan:
         out.append({'fn': name, 'n': n, 'k': k, 'seed': rng.getrandbits(32), 'dtype': rng.choice(['int64', 'int64', 'int32', 'float64']),
-                    'extra': ex_of(c), 'blocks': blocks, 'singles': 12})
+                    'extra': ex_of(c), 'blocks': blocks, 'singles': 12, 'hi': rng.choice([9, 40, 300, 3000])})
     c = rng.choice(nondiag)
     for kind in ('zero', 'half'):
         n = rng.choice([4097, 4500])
@@ -3192,8 +3251,8 @@ def search(ctx, broken):
         ctx.stats.case('oracle:reduce-shape', (shape, tuple(map(tuple, rows))))
         _guard(ctx, 'reduce:leading-shape', {'op': 'reduce_shape', 'rows': rows, 'shape': list(shape)},
                _o_reduce_shape, ctx, np, miller, rows, shape)
-    #    small bounds, the documented default 10, and one larger bound per run ((2m+1)^3 - 1 rows: 4912 at 8, 68920 at 20)
-    for m in list(range(0, ctx.n(4, 7))) + [8, 10] + ([12, 16, 20] if ctx.thorough or broken else [rng.choice([12, 16, 20])]):
+    #    small bounds, the documented default 10, larger bounds ((2m+1)^3 - 1 rows: 4912 at 8, 35936 at 16, 68920 at 20)
+    for m in list(range(0, ctx.n(4, 7))) + [8, 10, 12, 16, 20] + ([25, 32] if ctx.thorough else []):
         ctx.stats.case('oracle:all_indices', m, nontrivial=m > 0)
         _guard(ctx, 'all_indices', {'op': 'all_indices', 'maxindex': m}, _o_all_indices, ctx, np, miller, m)
         if m in (1, 2, 3, 10):
@@ -3342,7 +3401,10 @@ MANIFEST = {
             'accepted iff every row is a plane on its own; in the model of the CALLER\'s memory (arrays by address; alloc, call, '
             'caller write) a call changes no existing array, stores f(contents of the argument) at a fresh address, and '
             'call -> caller overwrites the result -> identical call returns the identical value (true by construction in a '
-            'functional model; tied to numpy by running the same histories on real int/float arrays and views). The model is tied to the code by an exhaustive differential run (all index triples to the bound, '
+            'functional model; tied to numpy by running the same histories on real int/float arrays and views); a long array of '
+            'planes / four-index sets evaluated in blocks is the array evaluated whole, wherever it is cut; both in-plane vectors '
+            'satisfy the zone law exactly (the integer quotients lose nothing); the four-index form of a plane with h, k >= 0, '
+            'h+k > 0 has a negative third index (it cannot stay in an unsigned dtype). The model is tied to the code by an exhaustive differential run (all index triples to the bound, '
             'cells of every family in four orientations with non-zero origins, one model object and one real object taken '
             'through the same setter histories, strings, boundary parameter sets).',
     'note': 'Trusted: Lean kernel + propext/Classical.choice/Quot.sound; the table translator (harness/props/c16.py); numpy '
